@@ -121,7 +121,7 @@ func (r *bufRun) runConsPlan(p consPlan) {
 
 func c01Run(trim bool) {
 	r := newBufRun(bufMode{prop: "C01", forcedTrim: trim})
-	withAuditor := simrt.Chance(3, 4)
+	withAuditor := simrt.Chance(3, 4) && !r.huge // nobody reads a few thousand values one by one
 	var aud *bufCons
 	if withAuditor {
 		aud = r.newConsumer(true, false)
